@@ -10,6 +10,7 @@ leaf operators.
 import OdlModel.Lemmas.OpAlgebra
 import OdlModel.Lemmas.OpDispatch
 import Mathlib.Algebra.Field.Rat
+import Mathlib.Data.Complex.Basic
 
 open OdlModel.OpAlgebra OdlModel.Gen.AlgebraDispatch
 
@@ -19,9 +20,9 @@ If the Python expression `e` builds an operator object `i` (does not raise), the
 invariant: a result that is a `Functional` returns scalars, a result whose `is_linear`
 flag is set is a linear map.  Assumption on the opaque leaves (`EnvOK`): a leaf flagged
 linear is linear, a `Functional` leaf returns a scalar; unflagged leaves are arbitrary. -/
-theorem C04.build_sound_inv {K : Type} [Field K] [DecidableEq K]
-    (env : Nat → Vec K → Vec K) (e : Expr K) (henv : EnvOK env e) :
-    ∀ i, build env e = some i → (∀ x, run env i x = den env e x) ∧ Inv env i := by
+theorem C04.build_sound_inv {K : Type} [Field K] [DecidableEq K] (R : K → Prop)
+    (env : Nat → Vec K → Vec K) (e : Expr K) (henv : EnvOK R env e) :
+    ∀ i, build env e = some i → (∀ x, run env i x = den env e x) ∧ Inv R env i := by
   induction e with
   | leaf l =>
     intro i h
@@ -89,12 +90,13 @@ theorem C04.build_sound_inv {K : Type} [Field K] [DecidableEq K]
           refine ⟨fun x => ?_, inv_mkQuot env h hia hib⟩
           unfold mkQuot at h; split_ifs at h; cases h
           simp only [run, den, hsb x, hsa x]
-  | sc o a s ih =>
+  | sc o a s re ih =>
     intro i h
     cases ha : build env a with
     | none => simp [build, ha] at h
     | some a' =>
-      obtain ⟨hs, hinv⟩ := ih henv a' ha
+      obtain ⟨hs, hinv⟩ := ih henv.1 a' ha
+      have hre := henv.2
       simp only [build, ha] at h
       cases o with
       | lmul =>
@@ -103,14 +105,14 @@ theorem C04.build_sound_inv {K : Type} [Field K] [DecidableEq K]
         rw [run_opRMulScal, hs x]; rfl
       | rmul =>
         simp only [Option.some.injEq] at h; subst h
-        refine ⟨fun x => ?_, inv_opMulScal env _ hinv⟩
-        rw [run_opMulScal env _ hinv, hs]; rfl
+        refine ⟨fun x => ?_, inv_opMulScal env _ re (fun h => (hre h).1) hinv⟩
+        rw [run_opMulScal env _ re (fun h => (hre h).1) hinv, hs]; rfl
       | div =>
         simp only at h
         split_ifs at h with h0
         simp only [Option.some.injEq] at h; subst h
-        refine ⟨fun x => ?_, inv_opMulScal env _ hinv⟩
-        rw [run_opMulScal env _ hinv, hs]
+        refine ⟨fun x => ?_, inv_opMulScal env _ re (fun h => (hre h).2) hinv⟩
+        rw [run_opMulScal env _ re (fun h => (hre h).2) hinv, hs]
         simp only [den]
         congr 1; funext j; field_simp
       | add =>
@@ -176,17 +178,17 @@ evaluates, at every point, to the value given by the documented table applied re
 `(v*A)(x)=v*A(x)`, `(A*v)(x)=A(v*x)`, `(A+v)(x)=A(x)+v`, `A**n` iterated, `(A/a)(x)=A(x/a)`),
 however the scalar factors were merged and whichever shortcut (`f*0`, `0*f`, linear
 `A*a ↦ a*A`, reflected `+`) the dispatch took. -/
-theorem C04.build_sound {K : Type} [Field K] [DecidableEq K]
-    (env : Nat → Vec K → Vec K) (e : Expr K) (henv : EnvOK env e) (i : Impl K)
+theorem C04.build_sound {K : Type} [Field K] [DecidableEq K] (R : K → Prop)
+    (env : Nat → Vec K → Vec K) (e : Expr K) (henv : EnvOK R env e) (i : Impl K)
     (h : build env e = some i) (x : Vec K) : run env i x = den env e x :=
-  (C04.build_sound_inv env e henv i h).1 x
+  (C04.build_sound_inv R env e henv i h).1 x
 
 /-- The `is_linear` flag of a built object is sound: when it is `True`, the documented-table
 meaning of the expression is a linear map (homogeneous and additive). -/
-theorem C04.linear_flag_sound {K : Type} [Field K] [DecidableEq K]
-    (env : Nat → Vec K → Vec K) (e : Expr K) (henv : EnvOK env e) (i : Impl K)
-    (h : build env e = some i) (hl : i.lin = true) : IsLin (den env e) := by
-  obtain ⟨hs, hinv⟩ := C04.build_sound_inv env e henv i h
+theorem C04.linear_flag_sound {K : Type} [Field K] [DecidableEq K] (R : K → Prop)
+    (env : Nat → Vec K → Vec K) (e : Expr K) (henv : EnvOK R env e) (i : Impl K)
+    (h : build env e = some i) (hl : i.lin = true) : IsLin R (den env e) := by
+  obtain ⟨hs, hinv⟩ := C04.build_sound_inv R env e henv i h
   have : den env e = run env i := funext fun x => (hs x).symm
   rw [this]; exact hinv.2 hl
 
@@ -212,10 +214,10 @@ theorem C04.inplace_eq_outofplace {K : Type} [Field K] [DecidableEq K]
   | zero d => intro x; rfl
 
 /-- In-place evaluation of a built expression is the documented-table value as well. -/
-theorem C04.build_sound_inplace {K : Type} [Field K] [DecidableEq K]
-    (env : Nat → Vec K → Vec K) (e : Expr K) (henv : EnvOK env e) (i : Impl K)
+theorem C04.build_sound_inplace {K : Type} [Field K] [DecidableEq K] (R : K → Prop)
+    (env : Nat → Vec K → Vec K) (e : Expr K) (henv : EnvOK R env e) (i : Impl K)
     (h : build env e = some i) (x : Vec K) : runIn env i x = den env e x := by
-  rw [C04.inplace_eq_outofplace, C04.build_sound env e henv i h]
+  rw [C04.inplace_eq_outofplace, C04.build_sound R env e henv i h]
 
 /-- `build_type`: the object built for `e` has exactly the domain, range and
 `Functional`-ness that the typing rules of the documented table (`typeOf`, defined on the
@@ -308,7 +310,7 @@ theorem C04.build_type {K : Type} [Field K] [DecidableEq K] (env : Nat → Vec K
           refine ⟨?_, fun i h => ?_⟩
           · split_ifs <;> simp_all [Impl.ty]
           · split_ifs at h; cases h; intro _; rfl
-  | sc o a s ih =>
+  | sc o a s re ih =>
     obtain ⟨ht, hf⟩ := ih hwf
     cases ha : build env a with
     | none =>
@@ -328,15 +330,15 @@ theorem C04.build_type {K : Type} [Field K] [DecidableEq K] (env : Nat → Vec K
         simp only [Option.some.injEq] at h; subst h
         exact fnRan_of_ty (ty_opRMulScal a' _ h1) h1
       | rmul =>
-        refine ⟨by simp [ty_opMulScal env a' _ h1], fun i h => ?_⟩
+        refine ⟨by simp [ty_opMulScal env a' _ re h1], fun i h => ?_⟩
         simp only [Option.some.injEq] at h; subst h
-        exact fnRan_of_ty (ty_opMulScal env a' _ h1) h1
+        exact fnRan_of_ty (ty_opMulScal env a' _ re h1) h1
       | div =>
         refine ⟨?_, fun i h => ?_⟩
-        · split_ifs <;> simp [ty_opMulScal env a' _ h1]
+        · split_ifs <;> simp [ty_opMulScal env a' _ re h1]
         · split_ifs at h
           simp only [Option.some.injEq] at h; subst h
-          exact fnRan_of_ty (ty_opMulScal env a' _ h1) h1
+          exact fnRan_of_ty (ty_opMulScal env a' _ re h1) h1
       | add => exact ⟨ty_opAddScal a' s, fun i h => fnRan_opAddScal h h1⟩
       | radd => exact ⟨ty_opAddScal a' s, fun i h => fnRan_opAddScal h h1⟩
       | sub => exact ⟨ty_opAddScal a' _, fun i h => fnRan_opAddScal h h1⟩
@@ -405,8 +407,8 @@ compositions, scalar/vector multiples and powers of linear operands) IS set on t
 object, for every expression.  (Full statement since the repair of C04-F1 in /repo:
 `FunctionalRightVectorMult` now passes `linear=func.is_linear` on; before, the case `f * v`
 with `f` a linear `Functional` was a counterexample.) -/
-theorem C04.linear_flag_complete {K : Type} [Field K] [DecidableEq K]
-    (env : Nat → Vec K → Vec K) (e : Expr K) (henv : EnvOK env e) :
+theorem C04.linear_flag_complete {K : Type} [Field K] [DecidableEq K] (R : K → Prop)
+    (env : Nat → Vec K → Vec K) (e : Expr K) (henv : EnvOK R env e) :
     ∀ i, build env e = some i → linOf e = true → i.lin = true := by
   induction e with
   | leaf l =>
@@ -447,25 +449,25 @@ theorem C04.linear_flag_complete {K : Type} [Field K] [DecidableEq K]
           rw [lin_opMul h, iha henv.1 a' ha hl.1, ihb henv.2 b' hb hl.2]; rfl
         | pprod => simp [linOf] at hl
         | quot => simp [linOf] at hl
-  | sc o a s ih =>
+  | sc o a s re ih =>
     intro i h hl
     cases ha : build env a with
     | none => simp [build, ha] at h
     | some a' =>
       simp only [build, ha] at h
-      have hinv := (C04.build_sound_inv env a henv a' ha).2
+      have hinv := (C04.build_sound_inv R env a henv.1 a' ha).2
       cases o with
       | lmul =>
         simp only [Option.some.injEq] at h; subst h
-        exact lin_opRMulScal_of a' _ (ih henv a' ha hl)
+        exact lin_opRMulScal_of a' _ (ih henv.1 a' ha hl)
       | rmul =>
         simp only [Option.some.injEq] at h; subst h
-        exact lin_opMulScal_of env _ hinv (ih henv a' ha hl)
+        exact lin_opMulScal_of env _ re hinv (ih henv.1 a' ha hl)
       | div =>
         simp only at h
         split_ifs at h
         simp only [Option.some.injEq] at h; subst h
-        exact lin_opMulScal_of env _ hinv (ih henv a' ha hl)
+        exact lin_opMulScal_of env _ re hinv (ih henv.1 a' ha hl)
       | add => simp [linOf] at hl
       | radd => simp [linOf] at hl
       | sub => simp [linOf] at hl
@@ -511,7 +513,7 @@ theorem C04.buildT_eq_build_aux {K : Type} [Field K] [DecidableEq K]
     | some a' =>
       have h1 := hfr a a' hwf ha
       simp only [Option.bind_some, Option.map_some, hNeg, Deleg.eval]
-      exact dRMul_scal env a' _ h1
+      exact dRMul_scal env a' _ _ h1
   | pow a n ih =>
     simp only [buildT, build, ih hwf]
     cases ha : build env a <;> simp [hPow]
@@ -530,13 +532,13 @@ theorem C04.buildT_eq_build_aux {K : Type} [Field K] [DecidableEq K]
         | sub =>
           have : subOf tables a' = Deleg.selfPlusNegOneTimesOther := by
             unfold subOf; split_ifs <;> rfl
-          simp only [this, Deleg.eval, negOneTimes, dRMul_scal env b' _ h2, Option.map_some,
+          simp only [this, Deleg.eval, negOneTimes, dRMul_scal env b' _ _ h2, Option.map_some,
             Option.bind_some]
           exact pyAdd_op env a' _
         | mul => exact pyMul_op env a' b' h2
         | pprod => rfl
         | quot => rfl
-  | sc o a s ih =>
+  | sc o a s re ih =>
     simp only [buildT, build, ih hwf]
     cases ha : build env a with
     | none => rfl
@@ -546,25 +548,25 @@ theorem C04.buildT_eq_build_aux {K : Type} [Field K] [DecidableEq K]
       have hsub : subOf tables a' = Deleg.selfPlusNegOneTimesOther := by
         unfold subOf; split_ifs <;> rfl
       cases o with
-      | lmul => exact dRMul_scal env a' s h1
-      | rmul => exact dMul_scal env a' s h1
+      | lmul => exact dRMul_scal env a' s re h1
+      | rmul => exact dMul_scal env a' s re h1
       | div =>
         simp only [hTd, Deleg.eval]
         split_ifs
         · rfl
-        · exact dMul_scal env a' _ h1
-      | add => simp only [pyAdd]; exact dAdd_scal env a' s h1
+        · exact dMul_scal env a' _ re h1
+      | add => simp only [pyAdd]; exact dAdd_scal env a' s re h1
       | radd =>
         simp only [reflectedAdd]
         split_ifs
-        · exact dAdd_scal env a' s h1
-        · simp only [hRAdd, Deleg.eval, pyAdd]; exact dAdd_scal env a' s h1
+        · exact dAdd_scal env a' s re h1
+        · simp only [hRAdd, Deleg.eval, pyAdd]; exact dAdd_scal env a' s re h1
       | sub =>
         simp only [hsub, Deleg.eval, negOneTimes, Option.bind_some, pyAdd]
-        exact dAdd_scal env a' _ h1
+        exact dAdd_scal env a' _ re h1
       | rsub =>
-        simp only [hRSub, Deleg.eval, dRMul_scal env a' _ h1, Option.bind_some, pyAdd]
-        exact dAdd_scal env _ s h3
+        simp only [hRSub, Deleg.eval, dRMul_scal env a' _ _ h1, Option.bind_some, pyAdd]
+        exact dAdd_scal env _ s re h3
   | vc o a v ih =>
     simp only [buildT, build, ih hwf]
     cases ha : build env a with
@@ -588,7 +590,7 @@ theorem C04.buildT_eq_build_aux {K : Type} [Field K] [DecidableEq K]
         simp only [hsub, Deleg.eval, negOneTimes, Option.bind_some, pyAdd]
         exact dAdd_vec env a' ⟨v.n, fun j => -1 * v.val j⟩ h1
       | rsub =>
-        simp only [hp, if_true, hRSub, Deleg.eval, dRMul_scal env a' _ h1, Option.bind_some, pyAdd]
+        simp only [hp, if_true, hRSub, Deleg.eval, dRMul_scal env a' _ _ h1, Option.bind_some, pyAdd]
         exact dAdd_vec env _ v h3
 
 /-- `buildT_eq_build`: the overload dispatch as EXTRACTED on this run from
@@ -606,12 +608,12 @@ theorem C04.buildT_eq_build {K : Type} [Field K] [DecidableEq K]
   C04.buildT_eq_build_aux env e (fun e' i h hb => (C04.build_type env e' h).2 i hb) hwf
 
 /-- Soundness stated directly for the extracted dispatch. -/
-theorem C04.extracted_dispatch_sound {K : Type} [Field K] [DecidableEq K]
-    (env : Nat → Vec K → Vec K) (e : Expr K) (hwf : LeavesWf e) (henv : EnvOK env e)
+theorem C04.extracted_dispatch_sound {K : Type} [Field K] [DecidableEq K] (R : K → Prop)
+    (env : Nat → Vec K → Vec K) (e : Expr K) (hwf : LeavesWf e) (henv : EnvOK R env e)
     (i : Impl K) (h : buildT tables env e = some i) (x : Vec K) :
     run env i x = den env e x ∧ runIn env i x = den env e x := by
   rw [C04.buildT_eq_build env e hwf] at h
-  exact ⟨C04.build_sound env e henv i h x, C04.build_sound_inplace env e henv i h x⟩
+  exact ⟨C04.build_sound R env e henv i h x, C04.build_sound_inplace R env e henv i h x⟩
 
 /-- `flag_table_matches`: the `is_linear` rule of each of the 19 expression classes as
 extracted from their `__init__` (the last base initialiser in source order wins) is the
@@ -645,9 +647,20 @@ def P : Expr ℚ := .leaf ⟨0, .vec 3, .vec 3, false, false⟩
 def M : Expr ℚ := .leaf ⟨1, .vec 3, .vec 3, true, false⟩
 def F : Expr ℚ := .leaf ⟨2, .vec 3, .fld, false, true⟩
 /-- `(P * 2) * M` — the expression of the repaired defect b971211 -/
-def eQ : Expr ℚ := .bin .mul (.sc .rmul P 2) M
+def eQ : Expr ℚ := .bin .mul (.sc .rmul P 2 true) M
 /-- `3 * ((2 * F) * 5) - F * 0` — merging, both `Functional` scalar forms, the zero shortcut -/
-def fQ : Expr ℚ := .bin .sub (.sc .lmul (.sc .rmul (.sc .lmul F 2) 5) 3) (.sc .rmul F 0)
+def fQ : Expr ℚ :=
+  .bin .sub (.sc .lmul (.sc .rmul (.sc .lmul F 2 true) 5 true) 3 true) (.sc .rmul F 0 true)
+
+/-- every rational is "real": the leaves of the ℚ examples are linear over the whole field -/
+def allQ : ℚ → Prop := fun _ => True
+
+/-- A complex tree with an only REAL-linear leaf flagged linear: `ComplexEmbedding ∘ RealPart`
+on `cn(3)` (every entry is replaced by its real part). -/
+noncomputable def envC : Nat → Vec ℂ → Vec ℂ := fun _ x j => ((x j).re : ℂ)
+def ReC : Expr ℂ := .leaf ⟨0, .vec 3, .vec 3, true, false⟩
+/-- the scalars such a leaf commutes with -/
+def isRealC : ℂ → Prop := fun s => s.im = 0
 
 end OdlModel.C04
 
@@ -660,12 +673,12 @@ example : ∃ i, build envQ eQ = some i ∧ typeOf eQ = some ⟨.vec 3, .vec 3, 
   obtain ⟨i, hi, _⟩ := C04.build_total envQ eQ
     (by exact ⟨fun h => by simp at h, fun h => by simp at h⟩) ⟨.vec 3, .vec 3, false⟩ rfl
   refine ⟨i, hi, rfl, ?_⟩
-  have envOK_eQ : EnvOK envQ eQ := by
-    refine ⟨⟨fun h => by simp at h, fun h => by simp at h⟩,
-      fun _ => ⟨fun s x => ?_, fun x y => ?_⟩, fun h => by simp at h⟩
+  have envOK_eQ : EnvOK allQ envQ eQ := by
+    refine ⟨⟨⟨fun h => by simp at h, fun h => by simp at h⟩, fun _ => ⟨trivial, trivial⟩⟩,
+      fun _ => ⟨fun s _ x => ?_, fun x y => ?_⟩, fun h => by simp at h⟩
     · funext j; simp only [envQ]; ring
     · funext j; simp only [envQ]; ring
-  rw [C04.build_sound envQ eQ envOK_eQ i hi]
+  rw [C04.build_sound allQ envQ eQ envOK_eQ i hi]
   simp only [den, eQ, P, M, envQ]; norm_num
 
 open OdlModel.C04 in
@@ -675,13 +688,43 @@ example : ∃ i, build envQ fQ = some i ∧ run envQ i (fun _ => 1) 0 = 150 := b
   obtain ⟨i, hi, _⟩ := C04.build_total envQ fQ
     (by exact ⟨fun _ => rfl, fun _ => rfl⟩) ⟨.vec 3, .fld, true⟩ rfl
   refine ⟨i, hi, ?_⟩
-  have envOK_fQ : EnvOK envQ fQ :=
-    ⟨⟨fun h => by simp at h, fun _ x j => rfl⟩, ⟨fun h => by simp at h, fun _ x j => rfl⟩⟩
-  rw [C04.build_sound envQ fQ envOK_fQ i hi]
+  have envOK_fQ : EnvOK allQ envQ fQ :=
+    ⟨⟨⟨⟨⟨fun h => by simp at h, fun _ x j => rfl⟩, fun _ => ⟨trivial, trivial⟩⟩,
+        fun _ => ⟨trivial, trivial⟩⟩, fun _ => ⟨trivial, trivial⟩⟩,
+      ⟨⟨fun h => by simp at h, fun _ x j => rfl⟩, fun _ => ⟨trivial, trivial⟩⟩⟩
+  rw [C04.build_sound allQ envQ fQ envOK_fQ i hi]
   simp only [den, fQ, F, envQ]; norm_num
 
 open OdlModel.C04 in
 /-- `linear_flag_sound` / `linear_flag_complete` are not vacuous: `(3 * M) * 2 - M`
 is flagged linear. -/
-example : ∃ i, build envQ (.bin .sub (.sc .rmul (.sc .lmul M 3) 2) M) = some i ∧ i.lin = true :=
+example : ∃ i, build envQ (.bin .sub (.sc .rmul (.sc .lmul M 3 true) 2 true) M) = some i ∧
+    i.lin = true :=
   ⟨_, rfl, rfl⟩
+
+open OdlModel.C04 in
+/-- The hypotheses are satisfiable with an only real-linear leaf flagged linear
+(`A = ComplexEmbedding ∘ RealPart` on `cn(3)`, `R` = the real scalars), and `build_sound`
+then covers a NON-real scalar: `A * 1j` (Python `complex`, `real = false`) builds an object
+whose value at `x = 1` is the table value `A(1j * x) = Re(1j) = 0`. -/
+example : ∃ i, build envC (.sc .rmul ReC Complex.I false) = some i ∧
+    run envC i (fun _ => 1) 0 = 0 := by
+  have hwf : LeavesWf (Expr.sc SOp.rmul ReC Complex.I false) := fun h => by simp [ReC] at h
+  obtain ⟨i, hi, _⟩ := C04.build_total envC _ hwf ⟨.vec 3, .vec 3, false⟩ rfl
+  refine ⟨i, hi, ?_⟩
+  have henv : EnvOK isRealC envC (Expr.sc SOp.rmul ReC Complex.I false) := by
+    refine ⟨⟨fun _ => ⟨fun s hs x => ?_, fun x y => ?_⟩, fun h => by simp at h⟩,
+      fun h => by simp at h⟩
+    · funext j; simp only [envC, isRealC] at *; apply Complex.ext <;> simp [hs]
+    · funext j; simp only [envC]; apply Complex.ext <;> simp
+  rw [C04.build_sound isRealC envC _ henv i hi]
+  simp [den, ReC, envC]
+
+open OdlModel.C04 in
+/-- Sensitivity (the dispatch before the repair of C04-F2 moved EVERY scalar of a flagged
+operator to the left): for the same leaf, `1j * A(x)` is not the table value `A(1j * x)`. -/
+example : run envC (opRMulScal Complex.I (Impl.leaf ⟨0, .vec 3, .vec 3, true, false⟩))
+      (fun _ => 1) 0 ≠
+    den envC (.sc .rmul ReC Complex.I false) (fun _ => 1) 0 := by
+  rw [run_opRMulScal]
+  simp [den, ReC, envC, run]
